@@ -153,6 +153,26 @@ def dialect_classes(src):
             continue
         if isinstance(res, tuple) and len(res) == 2 and all(isinstance(x, Obj) for x in res) and all(x.kind in imports for x in res):
             out[d] = (imports[res[0].kind], imports[res[1].kind])
+    if any(d not in out for d in DIALECTS):
+        # not interpretable (e.g. the function consults module state): read the `XLexer(), XParser()` pairs under `dialect == '<name>'` tests
+        def scan(stmts, dialect):
+            for st in stmts:
+                if isinstance(st, ast.If):
+                    d = None
+                    t = st.test
+                    if (isinstance(t, ast.Compare) and len(t.ops) == 1 and isinstance(t.ops[0], ast.Eq) and const_str(t.comparators[0]) is not None):
+                        d = const_str(t.comparators[0])
+                    scan(st.body, d or dialect)
+                    scan(st.orelse, dialect if d is None else None)
+                elif isinstance(st, (ast.Assign, ast.Return)) and dialect:
+                    v = st.value
+                    if isinstance(v, ast.Tuple) and len(v.elts) == 2 and all(isinstance(e, ast.Call) for e in v.elts):
+                        names = [dotted(e.func) for e in v.elts]
+                        if all(nm in imports for nm in names):
+                            out.setdefault(dialect, (imports[names[0]], imports[names[1]]))
+                elif isinstance(st, (ast.For, ast.While, ast.With, ast.Try)):
+                    scan(getattr(st, 'body', []), dialect)
+        scan(fn.body, None)
     for d in DIALECTS:
         if d not in out:
             raise AnalysisError(f'get_lexer_parser: cannot resolve the lexer/parser classes of dialect {d!r} '
